@@ -4,6 +4,7 @@
 set -u
 P="$1"; N="$2"; CHK="${3:-$1}"
 PFX="${SEEDPFX:-seed}"; TAG="${SEEDTAG:-}"
+VD="${VERIF_DIR:-/verif}"   # the copy of /verif whose check is run (several lanes can run side by side)
 WT=/tmp/${PFX}_$P; OUT=/tmp/${PFX}_${P}_out; DST=/verif/seeded/${P}_${TAG}$N
 git -C $WT checkout -q -- . ; git -C $WT checkout -q --detach main
 mkdir -p $DST
@@ -14,10 +15,10 @@ if ! git apply --check $DST/patch.diff 2>/dev/null; then echo "PATCH DOES NOT AP
 git apply $DST/patch.diff
 mut=$(PYTHONPATH=$WT/src /venv/bin/python $DST/demo.py 2>&1 | tail -1; echo "rc=${PIPESTATUS[0]}")
 tests=$(PYTHONPATH=$WT/src /venv/bin/python -m pytest -q -p no:cacheprovider --timeout=900 -x 2>&1 | tail -1)
-cd /verif
+cd $VD
 chk=$(VERIF_REPO=$WT ./check $CHK 2>&1 | grep -v "^KNOWN" | grep "VIOLATION\|^$CHK:" | tail -3)
 git -C $WT checkout -q -- .
-git -C /verif checkout -q -- evidence/$CHK.json 2>/dev/null
+git -C $VD checkout -q -- evidence/$CHK.json 2>/dev/null
 echo "clean demo: $clean"; echo "mutant demo: $mut"; echo "suite with patch: $tests"; echo "check: $chk"
 python3 - "$DST" "$P" "$CHK" "$clean" "$mut" "$tests" "$chk" <<'PY'
 import json, sys
